@@ -3,7 +3,10 @@
 use std::{env, fs, path::PathBuf};
 
 fn main() {
-    let lock = fs::read_to_string("/repo/Cargo.lock").expect("Cargo.lock of the repository");
+    // (VERIF_REPO: another location of the repository, for background runs on a snapshot)
+    let repo = env::var("VERIF_REPO").unwrap_or_else(|_| "/repo".to_owned());
+    println!("cargo:rerun-if-env-changed=VERIF_REPO");
+    let lock = fs::read_to_string(format!("{repo}/Cargo.lock")).expect("Cargo.lock of the repository");
     let mut version = None;
     let mut lines = lock.lines();
     while let Some(l) = lines.next() {
@@ -27,6 +30,6 @@ fn main() {
     // inner doc comments (//!) are not allowed in an include!d file that is not at the top of a module
     let text = fs::read_to_string(&src).unwrap().lines().filter(|l| !l.starts_with("//!")).collect::<Vec<_>>().join("\n");
     fs::write(out, text).unwrap();
-    println!("cargo:rerun-if-changed=/repo/Cargo.lock");
+    println!("cargo:rerun-if-changed={repo}/Cargo.lock");
     println!("cargo:rustc-env=VERIF_SERDE_DERIVE_VERSION={version}");
 }
